@@ -10,7 +10,7 @@ import ciw
 from .. import gen, runner
 from .common import guarded, Cap, Summary
 
-BUDGET = {'quick': (240, 4000), 'thorough': (8000, 20000)}
+BUDGET = {'quick': (400, 4000), 'thorough': (10000, 20000)}
 
 
 def oracle_deadlock(Q):
@@ -68,6 +68,7 @@ def make_spec(seed):
                 priorities=({c: i for i, c in enumerate(classes)} if ncls > 1 and r.random() < 0.5 else None),
                 tracker=r.choice(['NaiveBlocking', 'MatrixBlocking', 'NodePopulation']), lattice=lattice,
                 disciplines=[r.choice(['FIFO', 'FIFO', 'LIFO', 'SIRO']) for _ in range(n)])
+    spec['exact'] = r.choice([12, 20]) if r.random() < 0.12 else False
     return spec
 
 
@@ -85,12 +86,12 @@ def worker(job, extra):
     seed = job['seed']
     spec = job.get('spec') or make_spec(seed)
     cap = extra['cap']
-    res = {'job': job, 'seed': seed, 'viol': [], 'sig': repr((spec['n'], len(spec['classes']), spec['servers'], spec['qcaps'], spec['tracker'], bool(spec['priorities']), spec['lattice']))}
+    res = {'job': job, 'seed': seed, 'viol': [], 'sig': repr((spec['n'], len(spec['classes']), spec['servers'], spec['qcaps'], spec['tracker'], bool(spec['priorities']), spec['lattice'], spec.get('exact')))}
 
     def go():
         N = build(spec)
         ciw.seed(seed)
-        Q = DLSim(N, deadlock_detector=ciw.deadlock.StateDigraph(), tracker=getattr(ciw.trackers, spec['tracker'])())
+        Q = DLSim(N, deadlock_detector=ciw.deadlock.StateDigraph(), tracker=getattr(ciw.trackers, spec['tracker'])(), **({'exact': spec['exact']} if spec.get('exact') else {}))
         Q.nev = 0; Q.cap = cap; Q.log = []; Q.maxblocked = 0; Q.first = {Q.statetracker.hash_state(): 0.0}
         res['Q'] = Q
         Q.simulate_until_deadlock()
@@ -116,10 +117,10 @@ def worker(job, extra):
             res['viol'].append(('late_deadlock', (log[flags.index(True)][0], log[-1][0])))
         res['outcome'] = 'deadlock'
         tdl = log[-1][0]
-        exp = {s_: tdl - t0 for s_, t0 in Qx.first.items()}
+        exp = {s_: float(tdl) - float(t0) for s_, t0 in Qx.first.items()}
         got = Qx.times_to_deadlock
         if set(exp) != set(got): res['viol'].append(('times_to_deadlock_keys', (len(exp), len(got))))
-        elif any(abs(exp[k] - got[k]) > 1e-9 for k in exp): res['viol'].append(('times_to_deadlock_values', [(k, exp[k], got[k]) for k in exp if abs(exp[k] - got[k]) > 1e-9][:3]))
+        elif any(abs(exp[k] - float(got[k])) > 1e-9 for k in exp): res['viol'].append(('times_to_deadlock_values', [(k, exp[k], float(got[k])) for k in exp if abs(exp[k] - float(got[k])) > 1e-9][:3]))
         elif got and min(got.values()) < 0: res['viol'].append(('times_to_deadlock_negative', min(got.values())))
         res['ttd_states'] = len(got)
     if res['viol']: res['spec'] = spec
